@@ -7,41 +7,25 @@ from ..common import (get_repo, get_ops, get_tables, short, norm, method_loc, ca
 from ..opsets import ConstEval, NotConst
 from .. import ctors
 from ..tables import smtlib as T
-from .c07 import extract_name, TREE, DAGP, CMD
+from .c07 import TREE, DAGP, CMD
 from .c08 import token_table, PARSER
 
 HRP = "pysmt.printers.HRPrinter"
 HRL = "pysmt.parsing.HRLexer"
 
 EXPLANATION = (
-    "Static analysis composing the printer tables with the parser tables: for every operator and "
-    "both SMT-LIB printers the token printed is in the parser's table and resolves to a constructor "
-    "whose summary builds that very operator from its arguments in the printed order, including the "
-    "type-directed tokens '=' and '-' (R1); negative and rational constants are folded back by the "
-    "parser's minus/division adapters, constant arrays come back through (as const) + store (R2); "
-    "every command SmtLibCommand.serialize can write has a parser entry (R3); every token the "
-    "human-readable printer writes is matched first by the lexer rule bound to the constructor of "
-    "that operator or to the type-dispatching adapter containing it (R4).")
-NOT_DECIDED = ["object identity of the round trip for all formulas (needs evaluation)",
-               "grouping of n-ary operators in the human-readable grammar (allowed by the property)"]
-
-
-def adapter_targets(repo, cls_qual, name):
-    """Constructors (mgr.X) an adapter method of the parser/lexer can return."""
-    q, f = repo.find_method(cls_qual, name)
-    out = set()
-    if f is None:
-        return out
-    for n in ast.walk(f):
-        if isinstance(n, ast.Return) and isinstance(n.value, ast.Call):
-            fn = n.value.func
-            if isinstance(fn, ast.Attribute):
-                base = norm(fn.value)
-                if base in ("mgr", "self.mgr"):
-                    out.add(fn.attr)
-                elif base == "self":
-                    out.add("self." + fn.attr)
-    return out
+    "Abstract interpretation of both directions composed.  SMT-LIB: for ~130 concrete skeletons (every "
+    "operator, constants of every kind, arrays, functions, parametric sorts, quantifiers, names that need "
+    "quoting or collide with let names) the script written by the interpreted export path, in tree and in "
+    "let-DAG form, is read back by the interpreted SmtLibParser and get_last_formula is the very same node "
+    "(constant arrays: an equivalent store chain) (R5).  Human-readable: the text written by the interpreted "
+    "HRSerializer is read by the interpreted Pratt parser of pysmt/parsing.py; the result has the same sort "
+    "and, by structural comparison or exhaustive evaluation over small domains, the same meaning (R6).  "
+    "Scripts: every script of the import corpus is re-serialised by the interpreted SmtLibScript.serialize "
+    "and read again; the command names agree and every assertion denotes the same thing (R7).  Every command "
+    "SmtLibCommand.serialize can write has a parser entry (R3).")
+NOT_DECIDED = ["formulas and scripts outside the menus", "grouping of n-ary operators in the human-readable grammar "
+               "(allowed by the property; the comparison is up to meaning)"]
 
 
 def run(ctx):
@@ -69,80 +53,6 @@ def run(ctx):
                     outs.add(t)
             return outs
         return {"<" + name + ">"}
-
-    if ctx.want("R1"):
-        rs = ctx.rule("R1", "SMT-LIB printer o parser is the identity on operators")
-        for cls in (TREE, DAGP):
-            tab = ht.table(cls)
-            for o in ops:
-                nm = ops.name(o)
-                h = tab[o]
-                if h.is_error or h.func is None or nm in T.SPECIAL or nm in ("FORALL", "EXISTS"):
-                    continue
-                ex = extract_name(repo, cls, h, nm, ops)
-                if ex is None or ex[0] not in ("nary", "template", "indexed"):
-                    rs.unrec("%s %s: printed token not extracted" % (cls.split(".")[-1], nm))
-                    continue
-                if ex[0] == "indexed":
-                    ident = ex[1]
-                    ent = T.UNDERSCORE.get(ident)
-                    if ent is None:
-                        rs.unrec("indexed identifier %s has no parser reference" % ident)
-                        continue
-                    b = ctors.builds_any(ent[0])
-                    if any(opn == nm for opn, _ in b):
-                        rs.ok({"printer": cls.split(".")[-1], "op": nm, "token": "(_ %s ..)" % ident, "parser_builds": nm})
-                    else:
-                        ctx.finding(rs, "%s|%s|indexed-roundtrip" % (cls, nm),
-                                    "%s is printed as (_ %s ..) which the parser reads with %s building %s"
-                                    % (nm, ident, ent[0], sorted(b)), method_loc(repo, h.cls, h.func))
-                    continue
-                tok = ex[1]
-                cs = token_ctors(tok)
-                if cs is None:
-                    ctx.finding(rs, "%s|%s|token-unknown-to-parser|%s" % (cls, nm, tok),
-                                "%s prints %s as '%s' but the parser has no such token: pySMT cannot read its own output"
-                                % (cls.split(".")[-1], nm, tok), method_loc(repo, h.cls, h.func))
-                    continue
-                good = False
-                seen = set()
-                for c in cs:
-                    for opn, order in ctors.builds_any(c):
-                        seen.add(opn)
-                        if opn == nm and (order is None or list(order) == sorted(order)):
-                            good = True
-                if good:
-                    rs.ok({"printer": cls.split(".")[-1], "op": nm, "token": tok, "parser_ctor": sorted(cs)})
-                elif not seen:
-                    rs.unrec("%s: constructor(s) %s of token '%s' not summarised" % (nm, sorted(cs), tok))
-                else:
-                    ctx.finding(rs, "%s|%s|roundtrip|%s" % (cls, nm, tok),
-                                "%s is printed as '%s', which the parser reads with %s building %s, not %s"
-                                % (nm, tok, sorted(cs), sorted(seen), nm), method_loc(repo, h.cls, h.func))
-        ctx.floor(rs, 80)
-
-    if ctx.want("R2"):
-        rs = ctx.rule("R2", "constants and constant arrays survive the round trip")
-        # negative ints / rationals are printed as (- n) and (/ a b): the parser must fold them back
-        cls, f = repo.method(PARSER, "_minus_or_uminus")
-        folds = [c for c in calls_in(f) if attr_tail(c) in ("Int", "Real") and "-1 * args[0].constant_value()" in norm(c)]
-        guards = [n for n in ast.walk(f) if isinstance(n, ast.If) and attr_tail(n.test) in ("is_int_constant", "is_real_constant")]
-        if len(folds) == 2 and len(guards) == 2:
-            rs.ok({"(- n)": "folded to a constant for Int and Real constants"})
-        else:
-            rs.unrec("unary minus folding not in the recognised form (%d folds, %d guards)" % (len(folds), len(guards)))
-        cls, f = repo.method(PARSER, "_division")
-        if any(attr_tail(c) == "Real" for c in calls_in(f)) and "left.is_constant() and right.is_constant()" in norm(f):
-            rs.ok({"(/ a b)": "folded to a Real constant when both are constants"})
-        else:
-            rs.unrec("division folding not in the recognised form")
-        cls, f = repo.method(PARSER, "_enter_smtlib_as")
-        arr = [c for c in calls_in(f) if attr_tail(c) == "Array"]
-        if arr and "index_type" in norm(arr[0].args[0]) and norm(arr[0].args[1]) == "expr":
-            rs.ok({"(as const T)": "Array(index type of T, default)"})
-        else:
-            rs.unrec("(as const ..) handler not in the recognised form")
-        ctx.floor(rs, 2)
 
     if ctx.want("R3"):
         rs = ctx.rule("R3", "every command that can be serialised has a parser entry")
@@ -184,114 +94,46 @@ def run(ctx):
                             method_loc(repo, cls, f))
         ctx.floor(rs, 20)
 
-    if ctx.want("R4"):
-        rs = ctx.rule("R4", "human-readable printer tokens are lexed back to the same operator")
-        lex_rules, idmap = hr_lexer_tables(repo)
-        if not lex_rules:
-            ctx.error("R4", "HRLexer rule list not found")
-        tab = ht.table(HRP)
-        for o in ops:
-            nm = ops.name(o)
-            h = tab[o]
-            if h.is_error or h.func is None:
-                continue
-            tok = None
-            for r in ast.walk(h.func):
-                if isinstance(r, ast.Return) and isinstance(r.value, ast.Call) and attr_tail(r.value) == "walk_nary" \
-                        and isinstance(r.value.args[-1], ast.Constant):
-                    tok = r.value.args[-1].value.strip()
-            if tok is None:
-                # function-call style: first written constant "name("
-                consts = [n.value for n in ast.walk(h.func) if isinstance(n, ast.Constant) and isinstance(n.value, str)]
-                m = [c for c in consts if re.match(r"^[A-Za-z][A-Za-z0-9_.+]*\($", c)]
-                if m:
-                    tok = m[0][:-1]
-                else:
-                    kw = [c.strip() for c in consts if re.match(r"^ [A-Z]+ $", c)]
-                    if kw:
-                        tok = kw[0]
-            if tok is None:
-                continue
-            target = lex_token(lex_rules, idmap, tok)
-            if target is None:
-                ctx.finding(rs, "%s|%s|token-not-lexed|%s" % (HRP, nm, tok),
-                            "the human-readable printer writes '%s' for %s but no lexer rule matches it" % (tok, nm),
-                            method_loc(repo, h.cls, h.func))
-                continue
-            cs = set()
-            for t in target:
-                if t.startswith("self."):
-                    cs |= set(x for x in adapter_targets(repo, HRL, t[5:]))
-                else:
-                    cs.add(t)
-            seen = set()
-            good = False
-            for c in cs:
-                for opn, order in ctors.builds_any(c):
-                    seen.add(opn)
-                    if opn == nm:
-                        good = True
-            if good:
-                rs.ok({"op": nm, "token": tok, "lexer_ctor": sorted(cs)})
-            elif not seen:
-                rs.unrec("%s: lexer target %s for token '%s' not summarised" % (nm, sorted(cs), tok))
+    if ctx.want("R5"):
+        rs = ctx.rule("R5", "SMT-LIB round trip: parse(print(f)) is f, tree and let-DAG form, through the interpreted printer and parser")
+        from . import text_deep as td
+        for r in td.export_results(repo, ctx.tier):
+            form = "let-DAG" if r["dag"] else "tree"
+            kind, detail = r["c09"]
+            if kind == "valid":
+                rs.ok({"skeleton": r["shape"], "form": form, "result": detail})
+            elif kind == "invalid":
+                ctx.finding(rs, "roundtrip|%s" % r["shape"], "%s (%s form): %s%s" % (
+                    r["shape"], form, detail, (" [text: %s]" % r["text"].replace("\n", " ")[:300]) if r["text"] else ""),
+                    "pysmt/smtlib/parser/parser.py")
             else:
-                ctx.finding(rs, "%s|%s|hr-roundtrip|%s" % (HRP, nm, tok),
-                            "'%s' is printed for %s but lexed to %s which builds %s" % (tok, nm, sorted(cs), sorted(seen)),
-                            method_loc(repo, h.cls, h.func))
-        ctx.floor(rs, 35)
+                rs.unrec("%s (%s): %s" % (r["shape"], form, detail[:160]))
+        ctx.floor(rs, 200)
 
+    if ctx.want("R6"):
+        rs = ctx.rule("R6", "human-readable round trip: parse(serialize(f)) has the sort and the meaning of f")
+        from . import text_deep as td
+        for r in td.hr_results(repo, ctx.tier):
+            if r["kind"] == "valid":
+                rs.ok({"skeleton": r["shape"], "text": r["text"], "result": r["detail"]})
+            elif r["kind"] in ("invalid", "rejected", "raises"):
+                ctx.finding(rs, "hr|%s" % r["shape"], "%s: %s" % (r["shape"], r["detail"]), "pysmt/parsing.py")
+            else:
+                rs.unrec("%s: %s" % (r["shape"], r["detail"][:160]))
+        ctx.floor(rs, 100)
 
-def hr_lexer_tables(repo):
-    cls, init = repo.method(HRL, "__init__")
-    rules = []
-    idmap = {}
+    if ctx.want("R7"):
+        rs = ctx.rule("R7", "scripts re-serialise to text pySMT reads as an equivalent command list")
+        from . import text_deep as td
+        for r in td.import_results(repo, ctx.tier):
+            ag = r.get("again")
+            if ag is None:
+                continue
+            if ag[0] == "valid":
+                rs.ok({"script": r["name"], "result": ag[1]})
+            elif ag[0] == "invalid":
+                ctx.finding(rs, "reserialise|%s" % r["name"], "script %s: %s" % (r["name"], ag[1]), "pysmt/smtlib/script.py")
+            else:
+                rs.unrec("%s: %s" % (r["name"], ag[1][:160]))
+        ctx.floor(rs, 60)
 
-    def target_of(e):
-        """InfixOpAdapter(self.mgr.X, p) / UnaryOpAdapter / FunctionCallAdapter / InfixOrUnaryOpAdapter"""
-        if isinstance(e, ast.Call):
-            outs = []
-            for a in e.args:
-                if isinstance(a, ast.Attribute):
-                    t = norm(a)
-                    if t.startswith("self.mgr."):
-                        outs.append(t[len("self.mgr."):])
-                    elif t.startswith("self."):
-                        outs.append(t)
-                elif isinstance(a, ast.Call) and attr_tail(a) == "BVHack" and a.args:
-                    t = norm(a.args[0])
-                    if t.startswith("self.mgr."):
-                        outs.append(t[len("self.mgr."):])
-            return outs
-        if isinstance(e, ast.Attribute):
-            return [norm(e)]
-        return []
-    for n in ast.walk(init):
-        if isinstance(n, ast.Assign) and isinstance(n.targets[0], ast.Name) and n.targets[0].id == "hr_rules" \
-                and isinstance(n.value, ast.List):
-            for el in n.value.elts:
-                if isinstance(el, ast.Call) and attr_tail(el) == "Rule" and len(el.args) >= 2 and \
-                        isinstance(el.args[0], ast.Constant):
-                    rules.append((el.args[0].value, target_of(el.args[1]), norm(el.args[1])))
-        if isinstance(n, ast.Assign) and norm(n.targets[0]) == "self._identifier_map" and isinstance(n.value, ast.Dict):
-            for k, v in zip(n.value.keys, n.value.values):
-                if isinstance(k, ast.Constant):
-                    idmap[k.value] = target_of(v)
-    return rules, idmap
-
-
-def lex_token(rules, idmap, tok):
-    """The lexer compiles the rules into one alternation: at a position the first alternative that
-    matches wins.  Returns the constructor targets of the rule that consumes `tok` entirely."""
-    for rx, targets, raw in rules:
-        try:
-            m = re.match(rx, tok)
-        except re.error:
-            continue
-        if m and m.end() == len(tok):
-            if "identifier" in raw:
-                return idmap.get(tok)
-            return targets or None
-        if m and m.end() > 0:
-            return None      # a shorter prefix wins: the token is split
-    return None
